@@ -73,7 +73,8 @@ def run(unit, R, tier, only=None):
             R.cls("bins:per-cell-column-order")
         R.cls("mode:symm" if symm else "mode:square")
         pix = {nm: fx.pixvals(M[a], n, scale=q + 1) for q, (nm, a) in enumerate(zip(names, assign))}
-        frames = {nm: fx.frame(pix[nm], ("count",)) for nm in names}
+        # the two dicts (pixels, bins) are given in OPPOSITE key orders: cells must be matched by name, not by position
+        frames = {nm: fx.frame(pix[nm], ("count",)) for nm in reversed(names)}
         order = {True: ["chrom", "start", "end", "cov"], "first": ["cov", "chrom", "start", "end"], "middle": ["chrom", "start", "cov", "end"]}
         if per_cell == "once+extra":
             # ONE common table that carries an extra column (placed between the coordinates): every cell must carry it
